@@ -529,6 +529,10 @@ def run(ctx):
         pv = [n for n in ast.walk(s.fi.node) if isinstance(n, (ast.Call, ast.Name)) and "_approximated_pvalue" in norm(n)]
         res.add("V-MULT", fs, "_approximated_pvalue", "pvalue-source", "ok" if pv else "unknown", "" if pv else "the p-value computation was not recognised", loc(s.fi, s.fi.node))
     res.assumptions += ["the binomial survival formula and the step-up threshold value are not decided", "`hypergraph` of filter_hypergraph ranges over all four container classes (tables.POLYMORPHIC)"]
+    with res.guard("general lint pack over the property's files"):
+        from ..lints import check_pack
+
+        check_pack(ctx, res, "C19")
     return res
 
 
